@@ -56,6 +56,39 @@ def cargo_build():
     log(f"[cargo] harness built in {time.time()-t:.1f}s")
 
 
+CLI_TARGET = os.path.join(ROOT, "work", "target-cli")
+
+
+def cargo_build_cli():
+    """build rasn_compiler_cli from /repo's current working tree (own target directory under work/)"""
+    t = time.time()
+    env = clean_env()
+    env["CARGO_TARGET_DIR"] = CLI_TARGET
+    p = subprocess.run(["cargo", "build", "--offline", "-p", "rasn-compiler", "--features", "cli", "--bin", "rasn_compiler_cli"], cwd=REPO, env=env,
+                       stdout=subprocess.PIPE, stderr=subprocess.STDOUT, text=True)
+    if p.returncode != 0:
+        log(p.stdout[-4000:])
+        raise ToolError("cargo build of rasn_compiler_cli failed")
+    log(f"[cargo] rasn_compiler_cli built in {time.time()-t:.1f}s")
+    return os.path.join(CLI_TARGET, "debug", "rasn_compiler_cli")
+
+
+PROBE = os.path.join(ROOT, "probe")
+
+
+def cargo_build_probe():
+    """build the probe crate's dependencies (rasn, rasn-compiler-derive from /repo) offline"""
+    lock = os.path.join(PROBE, "Cargo.lock")
+    if not os.path.exists(lock):
+        shutil.copy(os.path.join(REPO, "Cargo.lock"), lock)
+    t = time.time()
+    p = subprocess.run(["cargo", "build", "--offline", "--lib"], cwd=PROBE, env=clean_env(), stdout=subprocess.PIPE, stderr=subprocess.STDOUT, text=True)
+    if p.returncode != 0:
+        log(p.stdout[-4000:])
+        raise ToolError("cargo build of the probe crate failed")
+    log(f"[cargo] probe crate built in {time.time()-t:.1f}s")
+
+
 def vharness(args, timeout=3600, threads=None, stdin=None):
     env = harness_env()
     if threads:
